@@ -52,6 +52,7 @@ type Input struct {
 	Hasher    int                        `json:"hasher,omitempty"`         // o7: index of the non-default hasher used at issuance
 	VerifyH   int                        `json:"verify_hasher,omitempty"`  // o7: hasher given to the verifier (0 = default)
 	E2E       *E2E                       `json:"e2e,omitempty"`
+	VP        *VPSpec                    `json:"verify_proof,omitempty"`
 }
 
 // result of running one case on the implementation
@@ -68,6 +69,7 @@ type result struct {
 	exact      *bool // exactness oracle: does re-derivation under the read-back options reproduce the claim?
 	e2eAccept  *bool
 	e2eMsg     string
+	vp         *vpObs
 }
 
 type rec struct {
@@ -76,16 +78,27 @@ type rec struct {
 	coq bool // goes into a shard
 }
 
+type issueRes struct {
+	cls   string
+	slots [8]*big.Int
+	msg   string
+}
+
 type gen struct {
-	cfg  *common.Config
-	rep  *common.Report
-	env  *credgen.Env
-	recs []*rec
-	alt  []merklize.Hasher
+	mu     sync.Mutex
+	issued map[string]issueRes
+	cfg    *common.Config
+	rep    *common.Report
+	env    *credgen.Env
+	recs   []*rec
+	alt    []merklize.Hasher
 }
 
 func newGen(cfg *common.Config) *gen {
-	g := &gen{cfg: cfg, rep: common.NewReport("C06"), env: credgen.NewEnv()}
+	g := &gen{cfg: cfg, rep: common.NewReport("C06"), env: credgen.NewEnv(), issued: map[string]issueRes{}}
+	// ToCoreClaim(ctx, nil) has no way to receive merklizer options: it uses the package default
+	// document loader, which is pointed at the offline loader (public API)
+	merklize.SetDocumentLoader(g.env.Loader)
 	for _, p := range hashers.TreePrimes() {
 		g.alt = append(g.alt, hashers.Mod{P: p})
 	}
@@ -211,13 +224,31 @@ func (g *gen) exec(in *Input) result {
 		r.issueClass, r.issueMsg, r.class = "err", "credential does not parse: "+err.Error(), "skipped"
 		return r
 	}
-	r.issueClass, r.issued, r.issueMsg = g.issue(vc, in.Opts, in.NilOpts, in.Hasher)
+	// the issuance of one (credential, options) pair is shared by all its modifications
+	ob, _ := json.Marshal(in.Opts)
+	key := fmt.Sprintf("%s|%s|%v|%d", in.Cred, ob, in.NilOpts, in.Hasher)
+	g.mu.Lock()
+	ic, hit := g.issued[key]
+	g.mu.Unlock()
+	if !hit || in.Kind == "complete" {
+		ic.cls, ic.slots, ic.msg = g.issue(vc, in.Opts, in.NilOpts, in.Hasher)
+		g.mu.Lock()
+		g.issued[key] = ic
+		g.mu.Unlock()
+	}
+	r.issueClass, r.issued, r.issueMsg = ic.cls, ic.slots, ic.msg
 	if r.issueClass != "ok" {
 		r.class = "skipped"
 		return r
 	}
 	if in.E2E != nil {
 		g.execE2E(in, vc, &r)
+		return r
+	}
+	if in.VP != nil {
+		o := g.execVP(in, &r)
+		r.vp = &o
+		r.class, r.msg = o.class, o.msg
 		return r
 	}
 	target := vc
@@ -266,6 +297,19 @@ func (g *gen) judge(in *Input, r *result) {
 	}
 	if in.E2E != nil {
 		g.judgeE2E(in, r)
+		return
+	}
+	if in.VP != nil && r.vp != nil && r.vp.class != "skipped" {
+		want := g.expectVP(in, r, *r.vp)
+		if want != r.vp.class {
+			cls := "c06-verifyproof-order"
+			if r.vp.class == "accept" {
+				cls = "c06-e2e-tamper-accepted"
+			} else if want == "accept" {
+				cls = "c06-e2e-complete-rejected"
+			}
+			rep.Fail(cls, fmt.Sprintf("%s: VerifyProof gives %s (%s), the binding-first reading gives %s", in.Site, r.vp.class, r.vp.msg, want), in)
+		}
 		return
 	}
 	if !r.verified {
@@ -325,7 +369,7 @@ func (g *gen) count(in *Input, r *result) {
 		cls = "issue-" + r.issueClass
 	}
 	site := ""
-	if in.Site != "" {
+	if in.Site != "" && in.VP == nil {
 		site = ":" + siteClass(in)
 	}
 	rep.Count(fmt.Sprintf("%s:%s%s:%s", k, in.Schema, site, cls))
@@ -376,6 +420,9 @@ func (g *gen) runAll(ins []*Input, coq func(i int) bool) {
 		g.judge(in, &r)
 		g.count(in, &r)
 		g.recs = append(g.recs, &rec{in: in, res: r, coq: coq(i) && in.E2E == nil && in.Kind != "o7"})
+		if in.VP != nil {
+			g.rep.Count("vp-request:" + r.class)
+		}
 		if len(g.rep.Samples) < 8 && (i%97 == 0) {
 			g.rep.Sample(map[string]any{"kind": in.Kind, "schema": in.Schema, "site": in.Site, "options": in.Opts,
 				"issue": r.issueClass, "binding_check": r.class, "message": r.msg})
@@ -439,8 +486,15 @@ func (g *gen) generate() {
 	for _, sch := range schs {
 		for si, sp := range g.credSpecs(sch) {
 			var os []credgen.Opts
-			if g.cfg.Thorough() || (si == 0 && sch.Label != "kyc-v3") {
+			if g.cfg.Thorough() || (si == 0 && sch.Label == "own-merk") {
 				os = grid
+			} else if si == 0 && sch.Label == "own-ser" {
+				for _, o := range grid {
+					if o.Root == "" {
+						os = append(os, o)
+					}
+				}
+				os = append(os, credgen.Opts{Root: "index"}, credgen.Opts{Root: "value", Subject: "value"})
 			} else {
 				for k := 0; k < 6; k++ {
 					os = append(os, grid[rng.Intn(len(grid))])
@@ -521,7 +575,10 @@ func (g *gen) generate() {
 		{schs[2], 4, credgen.Opts{Root: "value"}, false},
 	}
 	var coqMask []bool
-	for _, p := range picks {
+	for pi, p := range picks {
+		if !g.cfg.Thorough() && (pi == 3 || pi == 4 || pi == 6) {
+			continue
+		}
 		sp := g.credSpecs(p.sch)[p.sp]
 		probe := g.base(p.sch, sp, p.o, "complete")
 		g.register(probe)
@@ -550,7 +607,7 @@ func (g *gen) generate() {
 				coqMask = append(coqMask, seen[m.Field] <= 2 || rng.Intn(40) == 0)
 			}
 		} else {
-			for _, m := range sampledFlips(slots, rng, 3) {
+			for _, m := range sampledFlips(slots, rng, 2) {
 				ins = append(ins, mk(m))
 				coqMask = append(coqMask, true)
 			}
@@ -573,6 +630,9 @@ func (g *gen) generate() {
 
 	// 5. end to end: VerifyProof on signed bundles
 	g.generateE2E(schs)
+
+	// 6. VerifyProof's order of steps on bundles with several proof objects
+	g.runAll(g.generateVP(schs), func(int) bool { return true })
 }
 
 // ---------------------------------------------------------------------------
@@ -635,10 +695,33 @@ func (g *gen) writeShards() error {
 			credDefs = append(credDefs, fmt.Sprintf("Definition cred%d := %s.", i, full))
 			return i, nil
 		}
-		var ics, bcs []string
+		var ics, bcs, vcs []string
 		id := 0
 		for _, r := range rs[lo:hi] {
 			in, res := r.in, r.res
+			if in.VP != nil {
+				if res.vp == nil || res.vp.class == "skipped" || res.vp.class == "panic" {
+					continue
+				}
+				ci, err := viewOf(in.Cred, in.Paths)
+				if err != nil {
+					continue
+				}
+				var ps []string
+				for _, p := range res.vp.proofs {
+					cl := "None"
+					if p.claim != nil {
+						s, _ := parseSlots(p.claim[:])
+						cl = "(Some " + limbsList(s) + ")"
+					}
+					ps = append(ps, fmt.Sprintf("mkp %s %s %s", f.Str(p.typ), cl, coqgen.Bool(p.restOK)))
+				}
+				obs := map[string]string{"accept": "PAccept", "not-found": "PNotFound", "not-supported": "PNotSupported", "reject": "PReject"}[res.vp.class]
+				vcs = append(vcs, fmt.Sprintf("mkv %d %d [%s] %s %s", id, ci, strings.Join(ps, "; "), f.Str(res.vp.request), obs))
+				g.rep.Case(name, id, in)
+				id++
+				continue
+			}
 			if in.Kind == "complete" {
 				ci, err := viewOf(in.Cred, in.Paths)
 				if err != nil {
@@ -677,11 +760,12 @@ func (g *gen) writeShards() error {
 		for i := range credDefs {
 			cl = append(cl, fmt.Sprintf("cred%d", i))
 		}
-		f.Add("Definition creds := [" + strings.Join(cl, "; ") + "].")
+		f.Add("Definition creds : list cred := [" + strings.Join(cl, "; ") + "].")
 		f.Add("Definition oracles := " + or.Coq(f) + ".")
-		f.Add("Definition icases := " + coqgen.List(ics) + ".")
-		f.Add("Definition bcases := " + coqgen.List(bcs) + ".")
-		f.Add("Definition M := Eval vm_compute in (imismatches oracles creds icases ++ bmismatches oracles creds bcases).")
+		f.Add("Definition icases : list icase := " + coqgen.List(ics) + ".")
+		f.Add("Definition bcases : list bcase := " + coqgen.List(bcs) + ".")
+		f.Add("Definition vcases : list vcase := " + coqgen.List(vcs) + ".")
+		f.Add("Definition M := Eval vm_compute in (imismatches oracles creds icases ++ bmismatches oracles creds bcases ++ vmismatches oracles creds vcases).")
 		f.Add("Print M.")
 		if err := f.Write(name); err != nil {
 			return err
